@@ -9,16 +9,55 @@
     path as one unit, a delete removes what its path matches; [rel ed] relates
     a replayed entry to a stored one: both absent, or the same notification,
     or -- event-driven emulation [ed] -- two non-atomic notifications with
-    equal values, the replayed one not newer.  [good_notif name A n]: see
-    FeedReplay.v ([A] fixes which index paths hold atomic containers). *)
+    equal values, the replayed one not newer.  [good_notif name n]: every
+    update unit of n is addressed to [name], its key maps are maps, its index
+    path has no "*", and the delete notification built from it addresses its
+    own index path (FeedReplay.v). *)
 From Gnmi Require Import Base.Prelude CTree.CTreeModel CTree.CTreeProofs Path.PathModel
   Cache.CacheModel Cache.CacheProofs Cache.C02Check Cache.C03Check Cache.FeedReplay.
 Local Open Scope Z_scope.
 
-(** for every history on a fresh target, hence at every quiescent point *)
+(** the whole cache: every history of GnmiUpdate / Reset / Remove / Add (of an
+    absent target) / Sync / Connect / ConnectError / UpdateMetadata calls over
+    any number of targets, hence every prefix of it (every quiescent point):
+    the replayed callback stream stands for every target's stored leaves,
+    metadata leaves included, and holds nothing for an absent target.
+    [good_ops]: each notification's update units are good for the target it
+    names, Add only of an absent target, no call panics. *)
 Theorem C03_feed_replays_cache :
-  forall name A cfg (H : hist),
-    (forall h, In h H -> good_notif name A (snd h)) ->
+  forall cfg names ops,
+    NoDup names -> ~ In "" names -> good_ops (new_cache cfg names) ops ->
+    forall name,
+      match assoc name (c_targets (crun (new_cache cfg names) ops)) with
+      | Some t => forall s, rel (cfg_event_driven (t_cfg t))
+                                (rfind (replay (cfeed_hist (new_cache cfg names) ops)) name s)
+                                (lookup (t_tree t) s)
+      | None => forall s, rfind (replay (cfeed_hist (new_cache cfg names) ops)) name s = None
+      end.
+Proof. exact feed_replays_cache. Qed.
+Print Assumptions C03_feed_replays_cache.
+
+(** every single call keeps the replay invariant (the inductive step) *)
+Theorem C03_call_keeps_replay_invariant :
+  forall c m o c' r mf,
+    CInv c m -> good_op c o -> mstep c o = (c', r, mf) -> r <> RPanic ->
+    CInv c' (fold_left feed_apply (cfeed mf) m).
+Proof. exact cache_step_inv. Qed.
+Print Assumptions C03_call_keeps_replay_invariant.
+
+(** Reset: metadata refreshed, every root deleted and announced *)
+Theorem C03_reset_keeps_replay_invariant :
+  forall name, name <> "" ->
+  forall m0 t now t' feed,
+    Inv name t m0 -> t_name t = name -> target_reset t now = (t', feed, None) ->
+    Inv name t' (fold_left feed_apply feed m0) /\ Forall (ft name) feed /\ t_name t' = name.
+Proof. exact reset_inv. Qed.
+Print Assumptions C03_reset_keeps_replay_invariant.
+
+(** one target, GnmiUpdate histories (the statement above restricted) *)
+Theorem C03_feed_replays_target :
+  forall name cfg (H : hist),
+    (forall h, In h H -> good_notif name (snd h)) ->
     no_panic (new_target name cfg) H ->
     forall s, rel (cfg_event_driven cfg)
                   (rfind (replay (tfeed (new_target name cfg) H)) name s)
@@ -29,17 +68,19 @@ Print Assumptions C03_feed_replays_cache.
 (** the inductive step, from any state the invariant holds in (covers states
     reached through calls this file does not model as history items) *)
 Theorem C03_update_keeps_replay_invariant :
-  forall name A t m now n t' gs r,
-    Inv name A t m -> good_notif name A n -> target_gnmi_update t now n = (t', gs, r) ->
+  forall name t m now n t' gs r,
+    Inv name t m -> good_notif name n -> target_gnmi_update t now n = (t', gs, r) ->
     (forall w, r <> GPanic w) ->
-    Inv name A t' (fold_left feed_apply (render_feed gs) m).
+    Inv name t' (fold_left feed_apply (render_feed gs) m).
 Proof. exact target_update_inv. Qed.
 Print Assumptions C03_update_keeps_replay_invariant.
 
-(** FULL STATEMENT (false of the model as the code is now, see the refuted
-    lemmas): the same without the clauses of [good_unit] that exclude shared
-    prefix slices with spare capacity, atomic and scalar use of one index path,
-    and origins carried by the update path. *)
+(** FULL STATEMENT (false of the model, see C03_feed_replays_refuted_origin):
+    the same without the clause of [good_unit] that excludes origins carried
+    by the update path / mixed Elem-Element forms (known finding KF-C03-3).
+    The two statements below were the refutations for the two defects fixed
+    in /repo (20c4a71, 4775c12); they are stated under the model switches,
+    which are off, and document what the witnesses showed. *)
 Theorem C03_feed_replays_refuted_alias :
   if defect_c03_1_alias then exists s, replay_differs wit_alias s else True.
 Proof. exact feed_replays_refuted_alias. Qed.
@@ -92,12 +133,36 @@ Theorem C03_multi_is_sequence_of_units :
 Proof. intros t now n t' fd r Hwf E Hc. exact (proj2 (proj2 (proj2 (notif_leaf t now n t' fd r Hwf E Hc)))). Qed.
 Print Assumptions C03_multi_is_sequence_of_units.
 
+(** ... and, with the future check disabled, exactly as its single
+    notifications sent one after the other through the same entry point *)
+Theorem C03_multi_is_sequence :
+  forall t now n q,
+    wf_tree (t_tree t) -> thr_of t <= 0 ->
+    n_atomic n = false -> (2 <= List.length (n_upd n) + List.length (n_del n))%nat ->
+    clean (tres t (now, n)) -> clean_history t (map (pair now) (singles n)) ->
+    lookup (t_tree (tstep t (now, n))) q =
+    lookup (t_tree (trun t (map (pair now) (singles n)))) q.
+Proof. exact multi_is_sequence. Qed.
+Print Assumptions C03_multi_is_sequence.
+
+(** FULL STATEMENT (without [thr_of t <= 0]) is false: inside a multi
+    notification the latest accepted timestamp moves only after the whole
+    notification, so with a future threshold a later update of the same
+    notification can be refused where the same update sent on its own is
+    accepted *)
+Theorem C03_multi_is_sequence_refuted :
+  wf_tree (t_tree wit_seq_t) /\ thr_of wit_seq_t = 2 /\
+  clean (tres wit_seq_t (0, wit_seq_n)) /\ clean_history wit_seq_t (map (pair 0) (singles wit_seq_n)) /\
+  lookup (t_tree (tstep wit_seq_t (0, wit_seq_n))) ["a"; "c"] <>
+  lookup (t_tree (trun wit_seq_t (map (pair 0) (singles wit_seq_n)))) ["a"; "c"].
+Proof. exact multi_is_sequence_refuted. Qed.
+Print Assumptions C03_multi_is_sequence_refuted.
+
 (** a delete hands the client exactly the removed leaves (C02_delete_exact
-    gives the removed set); without slice aliasing each delete notification is
-    built from its own stored notification *)
+    gives the removed set), each delete notification built from its own stored
+    notification whatever slices the stored prefixes share *)
 Theorem C03_delete_feed_is_per_leaf :
   forall removed ts,
-    Forall (fun d => alias_write d = None) removed ->
     render_deletes removed ts = map (fun d => mk_delete d ts (del_path d)) removed.
 Proof. exact render_alias_free. Qed.
 Print Assumptions C03_delete_feed_is_per_leaf.
